@@ -438,7 +438,11 @@ class Core:
         if k == "None":
             return z3.BoolVal(False)
         if k == "Opt":
-            return z3.Not(self.opt_is_none(v))
+            # `if x:` on an optional container/number: not None AND the value itself is truthy (an empty list is falsy)
+            inner = self.opt_val(v)
+            if inner.ty.kind in ("Ref", "None"):
+                return z3.Not(self.opt_is_none(v))
+            return z3.And(z3.Not(self.opt_is_none(v)), zbool(self.truth(inner, node)))
         raise Unsupported("truthiness of %r" % (v.ty,), node)
 
     # ------------------------------------------------------------------ list helpers
